@@ -207,7 +207,13 @@ def doPLegacy (l : Line) : Option String := do
   let name ← l.get? "name"
   let shape ← l.get? "shape" >>= parseShape
   let dt ← l.get? "dtype" >>= parseDType
-  let outs ← l.get? "outs" >>= parseOuts
+  let outs0 ← l.get? "outs" >>= parseOuts
+  -- optional `outtuple=<2 chars>`: the user's out=(o1, o2) of the (1,2) wrapper
+  let outs ← match l.get? "outtuple" with
+    | some s => match s.toList.mapM parseOutChar with
+        | some [a, b] => some (twoOutArgs (outs0.getD 0 .none) (outs0.getD 1 .none) (some (a, b)))
+        | _ => none
+    | none => some outs0
   let np ← l.get? "np" >>= parseNp
   let (uname, o) ← powerLegacyCall Gen.UfuncLegacy.legacyNames Gen.UfuncLegacy.legacyPowerRules
     Gen.UfuncLegacy.npUfuncs name ⟨shape, dt⟩ outs np
